@@ -1,9 +1,9 @@
 #!/bin/bash
 # tools/soak.sh <tier> <seed...>  -- run every claimed check on the unchanged tree under the given seeds; any VIOLATION
 # or non-zero exit on the unchanged tree means the check (or the tree) needs attention. Writes tools/soak.log.
-cd /verif
+cd "${VERIF_ROOT:-/verif}"
 tier="$1"; shift
-log=/verif/tools/soak-$tier.log
+log=tools/soak-$tier.log
 for seed in "$@"; do
   for id in $(python3 -c "import json;print(' '.join(c['property_id'] for c in json.load(open('MANIFEST.json'))['checks']))"); do
     s=$(date +%s)
